@@ -23,6 +23,8 @@ extern void DecodeMotoBYT(Word Code);
 extern void DecodeMotoADR(Word Code);
 extern void DecodeMotoDFS(Word Code);
 
+extern void SetMotoPseudoTurn(Boolean Turn);
+
 extern Boolean DecodeMotoPseudo(Boolean Turn);
 
 extern void ConvertMotoFloatDec(Double F, Byte* pDest, Boolean NeedsBig);
